@@ -66,6 +66,9 @@ func c10Defects() []c10Defect {
 	echo := func(args ...world.Arg) *world.Sel { return al(world.F("echo").WithArgs(args...)) }
 	return []c10Defect{
 		{Name: "undefined-field", Make: func(*world.TypeDef) *world.Sel { return al(world.F("zq7")) }, Names: "zq7", NoCall: "field:zq7"},
+		// undefined fields whose names start like the meta-fields
+		{Name: "undefined-field-reserved-prefix", Make: func(*world.TypeDef) *world.Sel { return al(world.F("__zq7")) }, Names: "__zq7", NoCall: "field:__zq7"},
+		{Name: "undefined-field-like-a-meta-field", Make: func(*world.TypeDef) *world.Sel { return al(world.F("__typeName")) }, Names: "__typeName", NoCall: "field:__typeName"},
 		{Name: "undefined-field-with-selection", Make: func(*world.TypeDef) *world.Sel { return al(world.F("zq7", world.F("id"))) }, Names: "zq7", NoCall: "field:zq7"},
 		{Name: "undeclared-arg-alone", Needs: "i", Make: func(*world.TypeDef) *world.Sel { return al(world.F("i").WithArgs(world.Arg{Name: "zz", Value: 1})) }, Names: "zz", NoCall: "arg:i:zz"},
 		{Name: "undeclared-arg-beside", Needs: "echo", Make: func(*world.TypeDef) *world.Sel {
